@@ -65,7 +65,11 @@ var c01Extras = map[string]string{
 	"x_sbx_nest":   "S[{% include 'x_nest_a' sandboxed %}]",
 	"x_nest_unl":   "N({% include 'x_nest_unl_b' %})",
 	"x_nest_unl_b": "M[{% include 'x_unlisted' %}{% include 'x_unlisted' with {'q': 1} %}]",
-	"x_unlisted":   "{{ 'a-b'|replace('-', '+') }}{{ {'k': 1}|keys|join }}{{ [3,1]|merge([2])|join(',') }}",
+	// string literals with escape sequences, different ones per template (what one parse leaves
+	// behind must not reach the literals of a template parsed earlier)
+	"x_esc_a":    "{{ 'line\\nA\\t1' ~ \"q\\\"A\" }}|{{ 'it\\'s A' }}",
+	"x_esc_b":    "{{ 'other\\\\B\\n2, a longer literal than the first one' }}|{{ \"dq\\\"B\\\"\" }}|{{ 'b\\'s' }}",
+	"x_unlisted": "{{ 'a-b'|replace('-', '+') }}{{ {'k': 1}|keys|join }}{{ [3,1]|merge([2])|join(',') }}",
 	// the same struct type reached as a value and through a pointer, in separate templates: the
 	// order in which a process meets the two forms must not matter
 	"x_meth_v": "[{{ c01mv.Label }}|{{ c01mv.Twice }}|{{ c01mv.Name }}]",
@@ -339,7 +343,17 @@ func genC01(t *rapid.T) C01Case {
 		eng := rapid.IntRange(0, nw-1).Draw(t, "eng")
 		names := sortedTemplateNames(c.Worlds[eng])
 		op := C01Op{Eng: eng}
-		switch k := rapid.IntRange(0, 24).Draw(t, "opkind"); {
+		switch k := rapid.IntRange(0, 25).Draw(t, "opkind"); {
+		case k == 25:
+			// a template with escaped string literals is rendered, another source with escapes is
+			// parsed (or registered), the first one is rendered again
+			nm := rapid.SampledFrom([]string{"x_esc_a", "x_esc_b"}).Draw(t, "escname")
+			between := C01Op{Op: "parse", Eng: eng, Src: rapid.SampledFrom([]string{"{{ 'p\\n\\tq\\\\r and some more text here' }}", c01Extras["x_esc_a"], c01Extras["x_esc_b"]}).Draw(t, "escsrc")}
+			if rapid.Bool().Draw(t, "escreg") {
+				between = C01Op{Op: "register", Eng: eng, Name: "reg0", Src: between.Src, N: rapid.IntRange(0, 2).Draw(t, "route")}
+			}
+			c.Ops = append(c.Ops, C01Op{Op: "render", Eng: eng, Name: nm, Ctx: eng}, between, C01Op{Op: "render", Eng: eng, Name: nm, Ctx: eng})
+			continue
 		case k == 20:
 			// replace the parent that a relative extends / include resolves to, then render the
 			// templates that name it
@@ -438,7 +452,7 @@ func genC01(t *rapid.T) C01Case {
 	return c
 }
 
-const c01Rule = "histories of 5-40 (thorough 200) operations over 1-3 engines, each holding a template set from the structural generators (control flow, inheritance with parent(), include chains, macro libraries in five call forms, apply/spaceless) plus failing templates (syntax error, unclosed tag, include of a missing template, include of a broken template, division by zero) and a template above 4096 bytes; operations: Render / RenderTo / Load+Render, bursts of up to 130 renders of one template, repeat of the previous call, ParseTemplate+Render of valid, invalid, small and > 4096-byte sources (also of other engines' sources), RegisterString / LoadFromCompiledData / RegisterTemplate (also of names whose lookup failed or was ignored earlier, of a name whose old handle is still held, and of the parent behind a relative extends/include), a struct reached by value and by pointer in separate templates, SetCache, SetDebug, runtime.GC once or twice; after every render the result is compared with a pristine engine in a fresh OS process; non-trivial = the checked render is preceded by a render of the same cached template, a failing render or a GC; distinct by history"
+const c01Rule = "histories of 5-40 (thorough 200) operations over 1-3 engines, each holding a template set from the structural generators (control flow, inheritance with parent(), include chains, macro libraries in five call forms, apply/spaceless) plus failing templates (syntax error, unclosed tag, include of a missing template, include of a broken template, division by zero) and a template above 4096 bytes; operations: Render / RenderTo / Load+Render, bursts of up to 130 renders of one template, repeat of the previous call, ParseTemplate+Render of valid, invalid, small and > 4096-byte sources (also of other engines' sources), RegisterString / LoadFromCompiledData / RegisterTemplate (also of names whose lookup failed or was ignored earlier, of a name whose old handle is still held, and of the parent behind a relative extends/include), a struct reached by value and by pointer in separate templates, templates with escaped string literals around a parse of other escaped literals, SetCache, SetDebug, runtime.GC once or twice; after every render the result is compared with a pristine engine in a fresh OS process; non-trivial = the checked render is preceded by a render of the same cached template, a failing render or a GC; distinct by history"
 
 func TestC01History(t *testing.T) {
 	r := NewRec(t, "C01", c01Rule)
